@@ -318,6 +318,10 @@ func runC08(idx int, rng *rand.Rand, tier string) []Case {
 	if rng.Intn(3) == 0 { // first record different from the rest
 		rs[0].Headers, rs[0].Body, rs[0].Error = nil, nil, ""
 	}
+	if idx%20 == 6 { // a first record far larger than any sniffing buffer
+		rs[0].Body = make([]byte, 140000+rng.Intn(80000))
+		rng.Read(rs[0].Body)
+	}
 	b := encodeResults(rs, formats[f])
 	cr := &chunkReader{b: b, rng: rng}
 	if rng.Intn(3) == 0 {
@@ -348,8 +352,16 @@ func (o *offsetWriter) Write(p []byte) (int, error) { o.writes++; return o.buf.W
 
 // the attack command itself: results that completed must be in the output when the writer is killed
 func runC09Attack(idx int, rng *rand.Rand) []Case {
-	var done int64
+	var done, arrived int64
+	slowFirst := rng.Intn(2) == 0 // the first request hangs: later ones complete before it
 	srv := httptest.NewServer(http.HandlerFunc(func(w http.ResponseWriter, r *http.Request) {
+		if atomic.AddInt64(&arrived, 1) == 1 && slowFirst {
+			select {
+			case <-r.Context().Done():
+			case <-time.After(8 * time.Second):
+			}
+			return
+		}
 		w.Write([]byte("ok"))
 		atomic.AddInt64(&done, 1)
 	}))
@@ -387,7 +399,7 @@ func runC09Attack(idx int, rng *rand.Rand) []Case {
 	w.Bool(clean)
 	c.Tag = "attack.kill;nt"
 	c.Dist = "attack killed while writing"
-	c.Sample = map[string]interface{}{"rate": rate, "completed_before_kill": completed, "records_in_file": len(back), "bytes": len(b)}
+	c.Sample = map[string]interface{}{"rate": rate, "first_request_hangs": slowFirst, "completed_before_kill": completed, "records_in_file": len(back), "bytes": len(b)}
 	return []Case{c}
 }
 
@@ -409,6 +421,11 @@ func runC09(idx int, rng *rand.Rand, tier string) []Case {
 			rs[i].Body = make([]byte, rng.Intn(maxBody))
 			rng.Read(rs[i].Body)
 		}
+	}
+	if (idx%30 == 5 || idx%30 == 6) && n > 1 { // a record larger than 64 KiB in the middle of the stream
+		k := rng.Intn(n - 1)
+		rs[k].Body = make([]byte, 60000+rng.Intn(30000))
+		rng.Read(rs[k].Body)
 	}
 	ow := &offsetWriter{}
 	var enc vegeta.Encoder
@@ -457,7 +474,7 @@ func runC09(idx int, rng *rand.Rand, tier string) []Case {
 		}
 	} else {
 		step := 1
-		if len(b) > 6000 && tier != "thorough" {
+		if len(b) > 6000 && (tier != "thorough" || len(b) > 60000) {
 			step = 1 + len(b)/6000 // long streams: a stride plus every record boundary and its neighbours
 		}
 		for k := 0; k <= len(b); k += step {
